@@ -21,10 +21,10 @@ let tok_seq (data : string) (maxlen : int) : string =
   let rec go (s : n list) (pos : int) (k : int) =
     if k >= 300 then () else begin
       let t = rc_read_token (n_of_int maxlen) s in
-      let e = int_of_n t.t_end in
+      let e = int_of_n t.rc_t_end in
       if k > 0 then Buffer.add_char b ';';
-      Buffer.add_string b (Printf.sprintf "%d:%s:%d" (tt_index t.t_ty) (hexbytes t.t_raw) (pos + e));
-      match t.t_ty with
+      Buffer.add_string b (Printf.sprintf "%d:%s:%d" (tt_index t.rc_t_ty) (hexbytes t.rc_t_raw) (pos + e));
+      match t.rc_t_ty with
       | TtEof -> ()
       | _ -> if e = 0 && s = [] then () else go (drop e s) (pos + e) (k + 1)
     end in
